@@ -278,7 +278,7 @@ impl<'a> Gen<'a> {
         let whs = match wh { Wh::None => "nowhere", Wh::True => "where", Wh::False => "where-false" };
         let osig = if order.is_empty() { String::new() } else { format!(":order-{}-{}", if order.iter().all(|(gi, _)| *gi < nk) { "key" } else { "agg" }, if order[0].1 { "desc" } else { "asc" }) };
         let sig = if nk == 0 { format!("agg:{whs}{}", if aggs.len() > 1 { ":multi" } else { "" }) }
-                  else { format!("{}:{}:{}keys:{}:{}{}{}", if !order.is_empty() { "gorder" } else if having.is_some() { "having" } else { "group" }, whs, nk, if nk == 1 { keykinds[0].clone() } else { "multi".into() }, layout, hsig, osig) };
+                  else { format!("{}:{}:{}keys:{}:{}{}{}", if !order.is_empty() { "gorder" } else if having.is_some() { "having" } else { "group" }, whs, nk, if nk == 1 { keykinds[0].clone() } else if keykinds.iter().any(|k| k == "expr") { "multiexpr".into() } else { "multi".into() }, layout, hsig, osig) };
         let _ = kind;
         ACase { kind: if nk == 0 { "agg".into() } else if !order.is_empty() { "gorder".into() } else if having.is_some() { "having".into() } else { "group".into() },
             sig, tables: self.spec.to_string(), sql: s.sql(), sx: s.sx(), roles, aux: aux_sx, aux_sql, order: order_out, sub }
@@ -350,9 +350,11 @@ fn systematic(g: &Gen, out: &mut Vec<ACase>) {
         }
     }
     // expression as group key
-    for wh in [Wh::None, Wh::True] {
+    for wh in [Wh::None, Wh::True, Wh::False] {
         out.push(g.build("group", wh, &[bin(Op::Add, col(1), lit_i(1))], &["expr".to_string()], &[g.agg("count", None)], "keys-aggs", None, &[], &[]));
         out.push(g.build("group", wh, &[bin(Op::Mul, col(1), lit_i(2))], &["expr".to_string()], &[g.agg("sum", Some(1))], "keys-aggs", None, &[], &[]));
+        // a plain column next to an expression key
+        if ncols > 4 { out.push(g.build("group", wh, &[col(4), bin(Op::Add, col(1), lit_i(1))], &["multi".to_string(), "expr".to_string()], &[g.agg("count", None), g.agg("max", Some(1))], "keys-aggs", None, &[], &[])); }
     }
 }
 
